@@ -9,6 +9,7 @@
 package main
 
 import (
+	"context"
 	"crypto/sha256"
 	"encoding/hex"
 	"encoding/json"
@@ -16,6 +17,7 @@ import (
 	"os"
 	"sort"
 	"strings"
+	"sync"
 	"time"
 
 	"google.golang.org/protobuf/types/known/wrapperspb"
@@ -255,7 +257,57 @@ func newWorld(backend string, combo int) *world {
 		panic(err)
 	}
 	raw := be.DS
+	if leak := os.Getenv("VERIF_C16_SELFTEST_LEAK"); leak != "" {
+		// self-test of the comparison only: a stand-in for a cache that forgets the store id
+		// (never set by bin/check); the check must then report cross-store influence
+		be.Disown()
+		ds := &leakDS{OpenFGADatastore: raw, kind: leak, models: map[string]*openfgav1.AuthorizationModel{}, tuples: map[string]*openfgav1.Tuple{}}
+		return &world{be: be, raw: raw, srv: server.MustNewServerWithOpts(append([]server.OpenFGAServiceV1Option{server.WithDatastore(ds)}, comboOpts(combo)...)...)}
+	}
 	return &world{be: be, raw: raw, srv: be.NewServer(comboOpts(combo)...)}
+}
+
+// leakDS simulates a shared cache whose key lacks the store id ("model": models by id only,
+// "tuple": ReadUserTuple results by (object, relation, user) only).
+type leakDS struct {
+	storage.OpenFGADatastore
+	kind   string
+	mu     sync.Mutex
+	models map[string]*openfgav1.AuthorizationModel
+	tuples map[string]*openfgav1.Tuple
+}
+
+func (l *leakDS) ReadAuthorizationModel(ctx context.Context, store, id string) (*openfgav1.AuthorizationModel, error) {
+	if l.kind != "model" {
+		return l.OpenFGADatastore.ReadAuthorizationModel(ctx, store, id)
+	}
+	l.mu.Lock()
+	defer l.mu.Unlock()
+	if m, ok := l.models[id]; ok {
+		return m, nil
+	}
+	m, err := l.OpenFGADatastore.ReadAuthorizationModel(ctx, store, id)
+	if err == nil {
+		l.models[id] = m
+	}
+	return m, err
+}
+
+func (l *leakDS) ReadUserTuple(ctx context.Context, store string, f storage.ReadUserTupleFilter, o storage.ReadUserTupleOptions) (*openfgav1.Tuple, error) {
+	if l.kind != "tuple" {
+		return l.OpenFGADatastore.ReadUserTuple(ctx, store, f, o)
+	}
+	k := f.Object + "#" + f.Relation + "@" + f.User
+	l.mu.Lock()
+	defer l.mu.Unlock()
+	if t, ok := l.tuples[k]; ok {
+		return t, nil
+	}
+	t, err := l.OpenFGADatastore.ReadUserTuple(ctx, store, f, o)
+	if err == nil {
+		l.tuples[k] = t
+	}
+	return t, err
 }
 func (w *world) close() { w.srv.Close(); w.be.Close() }
 
